@@ -410,14 +410,18 @@ def scenarios(tier, seed):
         # ---- shapes with their own generator (the scenarios above stay what they were) -----------------------------
         r3 = rng_for(seed, "c10-shapes", rep)
         # one client keeps a single connection busy with request after request across the reload, for longer than graceful_timeout
-        for wc in (("gevent", "eventlet") if tier == "quick" else classes):
+        # (the sync worker closes every connection after one response: nothing to reuse)
+        for wc in (("gevent", "eventlet") if tier == "quick" else ("gthread", "gevent", "eventlet")):
             out.append({"class": wc, "configs": [(r3.randint(1, 2), 1), (r3.randint(1, 2), 2)], "hup_delays": [r3.choice([0.8, 1.2])],
                         "clients": 3, "bind": r3.choice(["tcp", "unix"]), "kind": "keepalive-client", "keepalive": 5, "graceful": 3,
                         "keepalive_clients": 1, "nap": r3.choice([0.2, 0.3])})
         # a large pool of idle workers that all leave at the same moment, reloaded again and again (each HUP once the previous
         # one has replaced the pool)
-        for bind, jitter in (("tcp", 0.010), ("unix", 0.015)):
-            out.append({"class": "sync", "configs": [(LARGE_POOL, g) for g in range(1, LARGE_POOL_HUPS + 2)],
+        pools = [("tcp", 0.010, LARGE_POOL), ("unix", 0.015, LARGE_POOL)]
+        if rep:
+            pools = [(r3.choice(["tcp", "unix"]), r3.choice([0.005, 0.010, 0.020]), r3.choice([16, 24, 56]))]
+        for bind, jitter, pool in pools:
+            out.append({"class": "sync", "configs": [(pool, g) for g in range(1, LARGE_POOL_HUPS + 2)],
                         "hup_delays": [0.5] + [0.05] * (LARGE_POOL_HUPS - 1), "clients": 2, "client_mix": "short",
                         "bind": bind, "kind": "large-pool", "wait_replaced": True, "leave_jitter": jitter})
         # a HUP with a changed file while the previous reload is still forking its workers (slow pre_fork hook)
